@@ -35,6 +35,10 @@ ToSn(r) == [set   |-> ToSetRec(r.set),
             revs  |-> [k \in 1..Len(r.revs) |-> ToRev(r.revs[k])],
             pvcs  |-> {r.pvcs[k] : k \in 1..Len(r.pvcs)},
             fresh |-> [exists |-> r.fresh[1], sameUid |-> r.fresh[2], deleting |-> r.fresh[3], rvSame |-> r.fresh[4]],
+            apods |-> [k \in 1..Len(r.apods) |-> [name |-> r.apods[k][1], imm |-> r.apods[k][2]]],
+            apvcs |-> {r.apvcs[k] : k \in 1..Len(r.apvcs)},
+            faults |-> [k \in 1..Len(r.faults) |-> [k |-> r.faults[k][1], kind |-> r.faults[k][2], applied |-> r.faults[k][3],
+                                                   die |-> r.faults[k][4], list |-> r.faults[k][5]]],
             cacheIntact |-> r.cacheIntact]
 
 Sn    == ToSn(Recs[i].sn)
@@ -47,13 +51,22 @@ TNext == UNCHANGED i
 \* conformance: compare call by call; the reason the model attaches to a pod delete is not observable
 NormCall(c) == <<c[1], c[2], c[3], IF c[1] = "delete" THEN "" ELSE c[4], c[5], c[6], IF c[1] = "create" /\ c[2] = "pods" THEN <<c[7][1]>> ELSE c[7]>>
 Norm(s) == [k \in 1..Len(s) |-> NormCall(s[k])]
-Conf == LET m == Sync(Sn) IN Norm(m.calls) = Norm(Calls) /\ m.res = Rslt
+\* A process death while pods are being claimed: the pods are visited in cache order, which is unspecified, so WHICH
+\* patches went out before the death is not determined; they must be patches the failure-free reconcile issues.
+Key(c) == <<c[1], c[2], c[3], c[4]>>
+DiedClaiming == Rslt = "died" /\ \E k \in 1..Len(Calls) : IsDied(Calls[k]) /\ Calls[k][1] = "patch" /\ Calls[k][2] = "pods"
+Conf == LET m == Sync(Sn) IN
+        IF DiedClaiming
+        THEN /\ m.res = "died"
+             /\ {Key(Calls[k]) : k \in 1..Len(Calls)} \subseteq {Key(c) : c \in SeqToSet(Sync([Sn EXCEPT !.faults = <<>>]).calls)}
+        ELSE Norm(m.calls) = Norm(Calls) /\ m.res = Rslt
 
 P_C03 == C03(Sn, Calls)
 P_C04 == C04(Sn, Calls)
 P_C05 == C05(Sn, Calls)
 P_C06 == C06(Sn, Calls)
 P_C07 == C07(Sn, Calls)
+P_C09 == C09(Sn, Calls, Rslt)
 P_C10 == C10(Sn, Calls, Rslt)
 P_C11 == C11(Sn, Calls)
 P_C12 == C12(Sn, Calls)
